@@ -1080,7 +1080,16 @@ impl Worker {
                 }
                 if let Err(e) = &dump_ok {
                     deviates = true;
-                    if self.mon(mon_state) {
+                    // the versions-since-snapshot counter of any client being off is C12's business
+                    // whatever the request was
+                    let md = m2.dump();
+                    let counter_off = md.clients.iter().any(|(c, mc)| match (mc.snapshot.as_ref(), sd2.clients.get(c).and_then(|x| x.snapshot.as_ref())) {
+                        (Some(a), Some(b)) => a.version == b.version && a.since != b.since,
+                        _ => false,
+                    });
+                    if counter_off && self.mon("C12") && mon_state != "C12" {
+                        find!("C12", i, "counter", opd.clone(), "versions-since-snapshot counter after the request: {e}");
+                    } else if self.mon(mon_state) {
                         find!(mon_state, i, "state", opd.clone(), "state after the request: {e}");
                     } else {
                         stats.collateral += 1;
@@ -1116,6 +1125,8 @@ impl Worker {
                         (AOp::AddVersion { .. }, SResp::NoSuchClient) => true,
                         (AOp::AddSnapshot { .. }, SResp::NoSuchClient) => true,
                         (AOp::AddSnapshot { .. }, SResp::SnapOk) => !is_mut,
+                        // a request that was not served (error answer, no answer) is a refused one
+                        (AOp::AddVersion { .. } | AOp::AddSnapshot { .. }, r) if r.is_failure() => true,
                         _ => false,
                     };
                     if non_mut {
@@ -1170,6 +1181,50 @@ impl Worker {
                     let (sdfull, _an) = self.suts[i].symbolize_dump(&dfull);
                     for (m, class, msg) in self.own_oracle(i, &acc2, &sdfull, " (state reached by a request the model disagrees with)", &mut stats) {
                         find!(m, i, class, opd.clone(), "{msg}");
+                    }
+                    // C14 there: the same request on the library twin, then every read on both;
+                    // what HTTP carries must be the twin's outcome (the property's own wording,
+                    // with no model in between)
+                    if self.mon("C14") && http {
+                        if let Some(t) = self.twin_of(i) {
+                            if !sts[t].diverged && t != i {
+                                let _ = exec(&mut self.suts[t], &node.model, &sop, new_sid);
+                                let mut reads: Vec<SymOp> = vec![];
+                                for c in 0..alphabet.n_clients {
+                                    let mut ids: Vec<Sid> = probe_ids[&c].iter().map(|x| x.1).collect();
+                                    ids.push(new_sid);
+                                    if let SymOp::AddVersion { parent, .. } = &sop {
+                                        ids.push(*parent);
+                                    }
+                                    ids.sort();
+                                    ids.dedup();
+                                    for sid in ids {
+                                        reads.push(SymOp::GetChild { c, parent: sid });
+                                    }
+                                    reads.push(SymOp::GetSnapshot { c });
+                                }
+                                for rd in reads {
+                                    // ids the HTTP side never saw have no concrete value there
+                                    let known = match &rd {
+                                        SymOp::GetChild { parent, .. } => *parent == NIL || (self.suts[i].tab.is_bound(*parent) && self.suts[t].tab.is_bound(*parent)),
+                                        _ => true,
+                                    };
+                                    if !known {
+                                        continue;
+                                    }
+                                    let want = self.suts[t].apply(&rd, UNKNOWN_SID);
+                                    let _got = self.suts[i].apply(&rd, UNKNOWN_SID);
+                                    stats.probes += 2;
+                                    stats.eval("C14");
+                                    if let Some(raw2) = self.suts[i].sut.last_raw.clone() {
+                                        if let Err(e) = check_encoding(&rd, &want, &raw2, &self.suts[i].tab) {
+                                            find!("C14", i, "encoding-after-deviation", opd.clone(), "after this request {} answers {:?} through the library, but HTTP carried something else: {e}", rd.describe(), want);
+                                        }
+                                    }
+                                }
+                                self.restore(t, node, &mut sts[t]);
+                            }
+                        }
                     }
                 }
                 // C14 (needs the twin's answer: done below)
